@@ -124,12 +124,12 @@ impl Property for C03 {
     const ID: &'static str = "C03";
     type Case = C03Case;
     fn strategy(_tier: Tier) -> BoxedStrategy<C03Case> {
-        let sched = (0u8..=2, 0u8..=2, proptest::collection::vec((1u8..=2, any::<bool>()), 1..=3), 1u8..=3, proptest::collection::vec(any::<bool>(), 3), any::<bool>(), 0u8..=3, proptest::collection::vec(any::<u16>(), 0..100))
-            .prop_map(|(sq_log2, gap, submitters, polls, complete_before_poll, shared_waker, executor_rounds, wake_tape)| C03Case::Sched(WakeCase { sq_log2, gap, submitters, polls, complete_before_poll, shared_waker, executor_rounds, ring_waits: false, wake_tape }));
+        let sched = (0u8..=2, 0u8..=2, proptest::collection::vec((1u8..=2, any::<bool>()), 1..=3), 1u8..=3, proptest::collection::vec(any::<bool>(), 3), any::<bool>(), 0u8..=3, proptest::collection::vec(any::<u16>(), 0..100), strat::maybe_pct(3, 160), proptest::bool::weighted(0.4))
+            .prop_map(|(sq_log2, gap, submitters, polls, complete_before_poll, shared_waker, executor_rounds, wake_tape, pct, inline_complete)| C03Case::Sched(WakeCase { sq_log2, gap, submitters, polls, complete_before_poll, shared_waker, executor_rounds, ring_waits: false, wake_tape, pct, inline_complete }));
         // One task with two operations completing in one batch while its
         // executor runs on another thread.
-        let batch = (1u8..=2, any::<bool>(), 2u8..=3, proptest::collection::vec(any::<u16>(), 0..120)).prop_map(|(sq_log2, repoll, polls, wake_tape)| {
-            C03Case::Sched(WakeCase { sq_log2, gap: 4, submitters: vec![(2, repoll)], polls, complete_before_poll: vec![false, true, true], shared_waker: true, executor_rounds: 6, ring_waits: true, wake_tape })
+        let batch = (1u8..=2, any::<bool>(), 2u8..=3, proptest::collection::vec(any::<u16>(), 0..120), strat::maybe_pct(3, 200)).prop_map(|(sq_log2, repoll, polls, wake_tape, pct)| {
+            C03Case::Sched(WakeCase { sq_log2, gap: 4, submitters: vec![(2, repoll)], polls, complete_before_poll: vec![false, true, true], shared_waker: true, executor_rounds: 6, ring_waits: true, wake_tape, pct, inline_complete: false })
         });
         let seq = (strat::ring_cfg(2), proptest::collection::vec(strat::step(strat::kind_basic().boxed(), 1, 1), 0..70)).prop_map(|(cfg, steps)| C03Case::Seq(History { cfg, steps, teardown: None }));
         let multi = multi::strategy().prop_map(C03Case::Multi);
@@ -173,8 +173,8 @@ impl Property for C06 {
     fn strategy(_tier: Tier) -> BoxedStrategy<HCase> {
         {
             let base = with_multi((strat::ring_cfg(3), proptest::collection::vec(strat::step(strat::kind_basic().boxed(), 1, 6), 0..70)).prop_map(|(cfg, steps)| History { cfg, steps, teardown: None }).boxed(), 1);
-            let sched = (1u8..=3, proptest::collection::vec(1u8..=2, 1..=2), 1u8..=3, proptest::collection::vec(proptest::bool::weighted(0.8), 3), proptest::bool::weighted(0.25), proptest::collection::vec(any::<u16>(), 0..80))
-                .prop_map(|(sq_log2, droppers, polls, complete_before_poll, full_queue, drop_tape)| HCase::Drop(super::c06b::DropCase { sq_log2, droppers, polls, complete_before_poll, full_queue, drop_tape }));
+            let sched = (1u8..=3, proptest::collection::vec(1u8..=2, 1..=2), 1u8..=3, proptest::collection::vec(proptest::bool::weighted(0.8), 3), proptest::bool::weighted(0.25), proptest::collection::vec(any::<u16>(), 0..80), strat::maybe_pct(3, 120))
+                .prop_map(|(sq_log2, droppers, polls, complete_before_poll, full_queue, drop_tape, pct)| HCase::Drop(super::c06b::DropCase { sq_log2, droppers, polls, complete_before_poll, full_queue, drop_tape, pct }));
             prop_oneof![4 => base, 1 => sched].boxed()
         }
     }
